@@ -127,7 +127,7 @@ MORE = {
     "C06": " Further templates: one key used in several sub-expressions (three jobs), $or and $not side by side, key names that start like a namespace, lists of mappings with nested containers, $near at zero; a raising query counts as disagreement.",
     "C07": " The string front end (parse_filter on a token string) agrees with the token list; filtered cursors are snapshots across workspace changes and independent of later changes to the caller's filter mapping; one-shot iterables as grouping keys.",
     "C08": " Histories also contain re-keys through by-id handles, jobs initialised by another process, re-assignment of the identical state point; abbreviated ids resolve against the workspace (also as the first action of a session); the real constructor with a configured cache-miss threshold and non-finite state point values (real file system).",
-    "C09": " A second universe with the empty state point and falsy values.",
+    "C09": " A second universe with the empty state point and falsy values; chains of renamed directories (A to an unused id, B to A's id) are repaired in one call.",
     "C10": " After every crash and between any two writer steps a fresh session reads through signac's own read path (old or new, nothing raised, targets still old-or-new afterwards); Job.clear/reset through a fresh handle; a device that runs full at ANY step and stays full; the migration's project-document write with all of the migration module's own I/O numbered.",
     "C11": " Without a fault every scenario ends like its reference run; rmtree error handlers are modelled. Also clone onto an existing job and into an empty destination directory, each with and without a persistent cache listing all jobs.",
     "C12": " Scripts include init(force=True) of the same job (pre-emption bound 3 in the quick tier).",
